@@ -18,7 +18,7 @@ def distinct_nontrivial(cases, outs, nontrivial):
 
 def differential(chk: core.Check, driver: str, cases: list, to_coq, imports: str, *, run_fn="run",
                  describe=lambda c, o: "", region=lambda c, o: None, component="", more_cases=None,
-                 hashseed="0", chunk=300, extra_env=None, timeout=900, kind=lambda c: str(c.get("op", "")), per_kind=2, expand=None):
+                 hashseed="0", chunk=300, extra_env=None, timeout=900, kind=lambda c: str(c.get("op", "")), per_kind=2, expand=None, coq_regions=()):
     """Returns (outs, corr_fail, orac_fail).  Adds violations to chk.
     region(c, o) -> id of a known finding covering this failing case, or None."""
     res = core.run_impl(driver, {"cases": cases}, hashseed=hashseed, extra_env=extra_env, timeout=timeout)
@@ -37,8 +37,24 @@ def differential(chk: core.Check, driver: str, cases: list, to_coq, imports: str
         cases, outs = expand(cases, outs)
         chk.expanded = (cases, outs)
     terms = [to_coq(c, o) for c, o in zip(cases, outs)]
-    corr, orac = core.run_cases(chk.prop, imports, terms, run_fn=run_fn, chunk=chunk)
     known = {k["id"]: k for k in core.known_findings(chk.prop)}
+    if coq_regions:
+        # the Coq side classifies oracle failures itself: list 2 = failures outside every region, then one list per region id
+        res_lists = core.run_cases(chk.prop, imports, terms, run_fn=run_fn, chunk=chunk, nlists=2 + len(coq_regions))
+        corr, orac = list(res_lists[0]), list(res_lists[1])
+        for rid, hits in zip(coq_regions, res_lists[2:]):
+            if not hits:
+                continue
+            if rid in known:
+                line = f"{rid}: {known[rid]['what_fails']}"
+                if line not in chk.known_hit:
+                    chk.known_hit.append(line)
+                chk.region_hits = getattr(chk, "region_hits", {})
+                chk.region_hits[rid] = chk.region_hits.get(rid, 0) + len(hits)
+            else:
+                orac = sorted(set(orac) | set(hits))   # a region that is not (or no longer) listed suppresses nothing
+    else:
+        corr, orac = core.run_cases(chk.prop, imports, terms, run_fn=run_fn, chunk=chunk)
     reported = 0
     per = {}
     for i in orac:
@@ -64,7 +80,7 @@ def differential(chk: core.Check, driver: str, cases: list, to_coq, imports: str
                 res2 = core.run_impl(driver, {"cases": extra}, hashseed=hashseed, extra_env=extra_env, timeout=timeout)
                 if not (isinstance(res2, dict) and res2.get("driver_failed")):
                     terms2 = [to_coq(c, o) for c, o in zip(extra, res2)]
-                    _, orac2 = core.run_cases(chk.prop, imports, terms2, run_fn=run_fn, chunk=chunk)
+                    orac2 = core.run_cases(chk.prop, imports, terms2, run_fn=run_fn, chunk=chunk, nlists=(2 + len(coq_regions)) if coq_regions else None)[1]
                     chk.coverage_extra = chk.__dict__.get("coverage_extra", 0) + len(extra)
                     for i in orac2:
                         rid = region(extra[i], res2[i])
